@@ -48,12 +48,13 @@ claim("C03", "other",
       VF_NOTE, "gated value-flow summaries + who-calls on resolved callees (static)", "DESIGN.md §4 C03")
 claim("C08", "other",
       "Record axioms of every generated new/amount/unit by composition; the five scalar/unit operator bodies of every quantity type are exact "
-      "pass-through / single-operation trees (so zero, -0, infinities and NaN need no separate argument); the dimensionless amount, One, AMNT_ONE.",
+      "pass-through / single-operation trees (so zero, -0, infinities and NaN need no separate argument); the dimensionless amount, One, AMNT_ONE; operator surfaces added later are "
+      "judged too: borrowed variants of the scaling operators must compute what the by-value form computes, compound assignment must be `*self = *self op rhs` through the checked operator.",
       VF_NOTE, "value-flow forms as exact trees, per generated impl (static)", "DESIGN.md §4 C08")
 claim("C10", "other",
       "Quantity::{eq,partial_cmp,add,sub,div} as gated terms: equality is exactly same-unit AND same-amount (Boolean truth table), ordering None across "
       "units, arithmetic across units ends in a diverging panic and never returns; types without reference unit forward to these bodies and implement "
-      "neither HasRefUnit nor LinearScaledUnit; single-unit types do plain amount arithmetic.",
+      "neither HasRefUnit nor LinearScaledUnit; single-unit types do plain amount arithmetic; compound-assignment impls, if any, must go through the checked operators.",
       VF_NOTE, "gated value-flow summaries incl. diverging branch + who-calls (static)", "DESIGN.md §4 C10")
 claim("C16", "proof",
       "The four 25-row tables and the discriminants are extracted as constant tables and compared with the SI brochure table; the gated summary of from_exp is evaluated for each of the 256 "
@@ -91,7 +92,8 @@ claim("C09", "proof",
 
 claim("C13", "other",
       "Rate is a four-field record (axioms by composing the extracted new/accessor bodies); reciprocal swaps the pairs and is an involution by rewriting; Rate*q (generic body), and "
-      "q*Rate / q/Rate of every quantity type are compared as rational functions over the uninterpreted like-quantity ratio (unit slots exactly); q / r equals q * reciprocal(r) after substitution.",
+      "q*Rate / q/Rate of every quantity type are compared as rational functions over the uninterpreted like-quantity ratio (unit slots exactly); q / r equals q * reciprocal(r) after substitution; "
+      "every arithmetic intermediate of a rate operation is one of the magnitudes the property names (so no unbounded intermediate is rounded in the decimal back-end).",,
       VF_NOTE + " The like-quantity ratio itself is C03/C10; as_qty is C09.", "value-flow summaries + rational-function normal form (static)", "DESIGN.md §4 C13")
 claim("C14", "other",
       "ConversionTable::convert (one generic body, hence any table): identity branch returns the value unchanged, otherwise find_map over the table in order with the row predicate "
@@ -139,7 +141,8 @@ claim("C11", "translation_validation",
       "Quantifier over programs: only the instances in the tree and the fixed corpus (seeded by VERIF_SEED) — arbitrary random definitions are not decided. Trusted: rustc expansion and type checking.",
       "translation validation between two independent extractors + type-checked witness corpus (static)", "DESIGN.md §4 C11")
 claim("C12", "other",
-      "Compile-fail witnesses with compiling twins: 62 malformed definitions (every defect class of the property x base definitions with / without reference unit / derived) plus the 13 tests/ui "
+      "Compile-fail witnesses with compiling twins: 420 malformed definitions (every defect class of the property x base definitions with / without reference unit / derived; an argument-kind matrix "
+      "over every argument position x wrong token kind; each also with documentation / lint attributes interleaved between the unit attributes) plus the 13 tests/ui "
       "programs, each type-checked on its own; verdict = rustc error with every primary span inside the offending definition, the well-formed twin compiles; for tests/ui the macro's own messages "
       "and positions recorded in the repository must still be reported.",
       "Quantifier over programs: only the witness corpus. Trusted: rustc/cargo JSON diagnostics.",
